@@ -73,6 +73,16 @@ def base_tree(rng, n_lo=3, n_hi=9, p_bad=0.15, long_bias=0.0, weird=0.0, extras=
     if rng.random() < weird:
         for p in rng.sample(WEIRD, rng.randint(1, 2)):
             placed[p] = pick_content(rng, lang_of_path(p) or "py", 0.0, 0.3)
+    if placed and rng.random() < 0.3:
+        # the same bytes under another language's extension (e.g. a C text as .cpp / .cs / .java):
+        # per-content (rather than per-path-and-language) handling becomes visible
+        src = rng.choice(sorted(placed))
+        lang = lang_of_path(src)
+        if lang:
+            other = rng.choice([l for l in LANGS if l != lang])
+            twin = new_path(rng, other)
+            if not any(q == twin or q.startswith(twin + "/") or twin.startswith(q + "/") for q in placed):
+                placed[twin] = placed[src]
     for p, c in placed.items():
         ops.append({"op": "write", "path": p, "content": c})
     return ops, placed
